@@ -219,8 +219,11 @@ impl<'a> SimpleGlyph<'a> {
             return Err(ReadError::InvalidArrayLen);
         }
         let mut cursor = FontData::new(self.glyph_data()).cursor();
-        // We'll need at most n_points flags, but fewer if there are repeats
-        let flags_data = cursor.read_array::<u8>(n_points.min(cursor.remaining_bytes()))?;
+        // A flag array takes at most two bytes per point (a flag with the
+        // repeat bit set followed by its repeat count, which may be zero),
+        // and fewer if there are longer repeats
+        let flags_data = cursor
+            .read_array::<u8>(n_points.saturating_mul(2).min(cursor.remaining_bytes()))?;
         let mut flags_iter = flags_data.iter().copied();
         // Keep track of the actual number of flag bytes read so that we can
         // create a new cursor for reading coordinates
@@ -245,6 +248,10 @@ impl<'a> SimpleGlyph<'a> {
             if i == n_points {
                 break;
             }
+        }
+        if i != n_points {
+            // the data ends before every point has a flag
+            return Err(ReadError::OutOfBounds);
         }
         let mut cursor = FontData::new(self.glyph_data()).cursor();
         cursor.advance_by(read_flags_bytes);
@@ -1077,5 +1084,44 @@ mod tests {
         // Don't panic!
         let midpoint = a.midpoint(b);
         assert_eq!(midpoint.to_bits(), expected);
+    }
+
+    // A flag array may spend two bytes on every point (repeat bit set with a
+    // repeat count of zero): legal, if not optimal. Both decoders must agree.
+    #[test]
+    fn read_points_fast_with_two_flag_bytes_per_point() {
+        let bytes = [
+            0x00, 0x01, // one contour
+            0x00, 0x00, 0x00, 0x00, 0x01, 0xf4, 0x01, 0xf4, // bbox
+            0x00, 0x02, // end point: three points
+            0x00, 0x00, // no instructions
+            0x3f, 0x00, 0x3f, 0x00, 0x3f, 0x00, // flags, each repeated zero times
+            0x01, 0x02, 0x03, // x deltas
+            0x04, 0x05, 0x06, // y deltas
+        ];
+        let glyph = SimpleGlyph::read(FontData::new(&bytes)).unwrap();
+        let expected = [(1, 4, true), (3, 9, true), (6, 15, true)];
+        assert_eq!(
+            glyph
+                .points()
+                .map(|pt| (pt.x as i32, pt.y as i32, pt.on_curve))
+                .collect::<Vec<_>>(),
+            expected
+        );
+        let mut points = [Point::<i32>::default(); 3];
+        let mut flags = [PointFlags::default(); 3];
+        glyph.read_points_fast(&mut points, &mut flags).unwrap();
+        assert_eq!(
+            points
+                .iter()
+                .zip(&flags)
+                .map(|(pt, flag)| (pt.x, pt.y, flag.is_on_curve()))
+                .collect::<Vec<_>>(),
+            expected
+        );
+        // flags that end before every point has one are an error, in both decoders
+        let truncated = SimpleGlyph::read(FontData::new(&bytes[..18])).unwrap();
+        assert_eq!(truncated.points().count(), 0);
+        assert!(truncated.read_points_fast(&mut points, &mut flags).is_err());
     }
 }
